@@ -107,7 +107,9 @@ type Result struct {
 	Codes   []string // reject reason classes (format strings with verbs stripped)
 	Pkgs    map[string]bool // packages owning the named types rendered by the conversions
 	NeedFmt bool            // an enum @error/@panic action is part of the plan
-	Fallible bool           // a fallible custom function is part of the plan
+	Fallible bool           // a fallible site (custom function, enum @error, struct method with error) is part of the plan
+	WrapPkgs map[string]bool // wrapErrorsUsing packages in effect at fallible sites (import required)
+	WrapFmt  bool            // wrapErrors in effect at a fallible site (fmt import possible)
 	Plan    *rt.PlanSet
 	// Fallible: the top method needs an error result
 	States      map[string]bool
@@ -140,7 +142,7 @@ func (m *modeler) unspec(format string, a ...any) {
 
 // Judge computes verdict and plan of one declared method of the converter.
 func Judge(conv *Converter, meth *Method) *Result {
-	m := &modeler{conv: conv, defs: map[string]*rt.Plan{}, res: &Result{States: map[string]bool{}, Pkgs: map[string]bool{}}, pending: map[string]bool{}}
+	m := &modeler{conv: conv, defs: map[string]*rt.Plan{}, res: &Result{States: map[string]bool{}, Pkgs: map[string]bool{}, WrapPkgs: map[string]bool{}}, pending: map[string]bool{}}
 	m.topCtx = meth.CtxTypes
 	// two declared methods with one signature whose context sets contain each other are ambiguous
 	for i, a := range conv.Methods {
@@ -375,6 +377,14 @@ func (m *modeler) custom(e *env, c *Custom, s, t *space.Ty) *rt.Plan {
 		return m.reject("custom %s returns error but method has no error result", c.Name)
 	}
 	p := &rt.Plan{Op: "custom", Fn: c.Name, Fallible: c.Err}
+	if c.Pkg != "" {
+		m.res.Pkgs[c.Pkg] = true
+	} else {
+		m.res.Pkgs[m.conv.LitPkg] = true
+	}
+	if c.Err {
+		m.noteFallible(e)
+	}
 	for _, role := range c.ArgsFmt {
 		switch {
 		case role == "conv":
@@ -393,10 +403,17 @@ func (m *modeler) custom(e *env, c *Custom, s, t *space.Ty) *rt.Plan {
 			p.Args = append(p.Args, idx)
 		}
 	}
-	if c.Err {
-		m.res.Fallible = true
-	}
 	return p
+}
+
+// noteFallible records a fallible site and which error wrapping is in effect for the method containing it.
+func (m *modeler) noteFallible(e *env) {
+	m.res.Fallible = true
+	if e.set.WrapErrorsUsing != "" {
+		m.res.WrapPkgs[e.set.WrapErrorsUsing] = true
+	} else if e.set.WrapErrors {
+		m.res.WrapFmt = true
+	}
 }
 
 // needErr checks that every explicit method on the origin chain returns an error.
@@ -904,6 +921,9 @@ func (m *modeler) mapField(e *env, fp *rt.FieldPlan, fc *FieldCfg, target string
 	if meth != nil {
 		fp.Method = true
 		fp.MErr = meth.Err
+		if meth.Err {
+			m.noteFallible(e)
+		}
 		if meth.Err && !m.needErr(e) {
 			m.reject("struct method source %s returns error but method has no error result", meth.Name)
 			return nil, false, false
@@ -1032,6 +1052,12 @@ func (m *modeler) enum(e *env, s, t *space.Ty) *rt.Plan {
 		if a == "@error" || a == "@panic" {
 			m.res.NeedFmt = true
 		}
+		if a == "@error" {
+			m.noteFallible(e)
+		}
+	}
+	if ep.Unknown == "@error" {
+		m.noteFallible(e)
 	}
 	if ep.Unknown == "@error" || ep.Unknown == "@panic" {
 		m.res.NeedFmt = true
